@@ -37,7 +37,7 @@ CLAIMED.update({
         text="Exploration: the leader lives inside a hostile multi-replica history (so it integrates out-of-order blocks, stashes, duplicates, partial updates, forced gc); followers fed only by observe_update_v1 / _v2 must equal it after every single transaction; a transaction emits the same number (0 or 1) of events per encoding, and emits iff content, integrated blocks or the delete set changed.",
         design="DESIGN.md section 3 C07"),
     "C08": dict(
-        technique="runtime monitoring: differential execution of merge_updates / diff_updates / encode_state_vector_from_update against applying through documents",
+        technique="runtime monitoring: differential execution of merge_updates / diff_updates / encode_state_vector_from_update against applying through documents, plus a document-free restriction oracle for diff_updates at synthetic cuts (hook H1); ASan re-run",
         text="Exploration: random multisets of a history's real updates (duplicates, out-of-order, overlapping re-broadcasts, GC and Skip blocks) are merged in random orders/nestings (v1 and v2) and applied to empty and pre-populated documents, compared with one-by-one application immediately (when nothing is pending and no GC-form block is involved) and always after completing both sides with the whole history; diff_updates vs apply; vector-from-update vs the applied document.",
         design="DESIGN.md section 3 C08"),
     "C13": dict(
@@ -45,11 +45,11 @@ CLAIMED.update({
         text="Exploration: snapshots at random points (skip_gc replicas), restored through encode_state_from_snapshot v1 and v2 at later points and at the end (after edits that extend, split, squash and delete blocks), must reproduce the recorded canonical dump; snapshots survive encode/decode; gc-enabled documents refuse. Snapshots taken over a gap are evaluated as a separate population (known finding D15).",
         design="DESIGN.md section 3 C13"),
     "C14": dict(
-        technique="runtime monitoring: sticky indexes created, serialised and resolved on every replica after every step; expected offset from the item sequence (hook H2)",
+        technique="runtime monitoring: sticky indexes created, serialised and resolved on every replica after every step (a third of the histories with undo managers, so that anchors are deleted and restored); expected offset from the item sequence (hook H2); ASan re-run",
         text="Exploration: indexes of both associations at start / inside / block-boundary / end positions of text, array and XML sequences; binary and JSON round trip; on every replica that has integrated the anchor the resolved offset must equal the count of visible units (in that replica's offset unit) before the anchor, or before its tombstone if deleted; start/end indexes of empty collections stay. OffsetKind::Bytes over non-ASCII text is a known finding (D9) - that population is counted, not enforced.",
         design="DESIGN.md section 3 C14"),
     "C15": dict(
-        technique="runtime monitoring: gc/no-gc twin replicas compared after every step, forced gc, rebuild from full state",
+        technique="runtime monitoring: gc/no-gc twin replicas compared after every step, forced gc, rebuild from full state, lock-step oracle on sequential histories (every receiver equals the author right after its update, whatever its gc / clean-up setting); ASan re-run",
         text="Exploration: deletion-heavy histories (plain content, nested subtrees, map overwrites, formatting); each replica is shadowed by a passive twin with the opposite gc setting and the dumps must agree after every step; forced gc (all / scoped) must not change the dump; a document rebuilt from a replica's full state must equal it; replicas with different gc settings converge.",
         design="DESIGN.md section 3 C15"),
 })
